@@ -180,6 +180,29 @@ theorem C14_empty_to_wildcard (tbl : Table) (k : Kind) (typ : String) (n : Name)
 
 example : lookup [⟨.msg, "chat", ⟨"", ""⟩⟩] .msg "chat" ⟨"", ""⟩ = some ⟨.msg, "chat", ⟨"", ""⟩⟩ := by decide
 
+/-! ### the defaults -/
+
+/-- **defaults**: an IQ for whose payload no pattern of its type matches is answered with a
+service-unavailable error when it is a request (any type other than result / error), and with
+nothing when it is itself a reply; a registered match always wins -/
+theorem C14_iq_default (tbl : Table) (typ : String) (n : Name) :
+    (lookup tbl .iq typ n = none →
+      iqDispatch tbl typ n = if typ == "error" || typ == "result" then .nothing else .fallback) ∧
+    (∀ p, lookup tbl .iq typ n = some p → iqDispatch tbl typ n = .handler p) := by
+  constructor
+  · intro h; simp [iqDispatch, h]
+  · intro p h; simp [iqDispatch, h]
+
+/-- messages and presences have no default action: when no pattern matches a child the no-op
+handler runs, it reads nothing and nothing is written (`specCalls` records `pat = none` with an
+empty view) -/
+theorem C14_stanza_default (tbl : Table) (k : Kind) (typ : String) (stanza : List Tok)
+    (pos : Nat) (n : Name) (cs : List (Nat × Name)) (cons : List Nat)
+    (h : lookup tbl k typ n = none) :
+    specCalls tbl k typ stanza ((pos, n) :: cs) cons
+      = { pat := none, view := [] } :: specCalls tbl k typ stanza cs cons := by
+  simp [specCalls, h]
+
 /-! ### registration -/
 
 /-- registering a pattern twice, or with a nil handler, is refused -/
